@@ -534,6 +534,14 @@ func RunCheck(o Options) int {
 			w.stdin.Close()
 			w.cmd.Wait()
 		}
+		if oc.suspect && oc.res.Sig == "hang:?" {
+			// no goroutine with a library frame anywhere in the dump: the harness itself was still computing (reference
+			// arithmetic, case too large for its allowance). That says nothing about the library.
+			oc.res.Verdict = Inconclusive
+			oc.res.Msg = "watchdog fired twice with no library frame on any stack (harness-side computation; case too large for its allowance): " + oc.res.Msg
+			outs[i] = oc
+			continue
+		}
 		if oc.suspect {
 			first := outs[i].res
 			confirmed++
